@@ -153,7 +153,8 @@ fn res_set(pie: &mut Pie<Trk>, key: ResKey, val: Option<Val>, tick: u64) {
         Some(v) => {
           std::fs::write(&p, format!("{v}")).expect("cannot write file resource");
           // Far in the future and strictly increasing: no outcome may depend on the real clock.
-          let t = std::time::UNIX_EPOCH + std::time::Duration::from_secs(4_102_444_800 + tick);
+          // Unique per change, but not monotonic: restoring an older file must be noticed as well.
+          let t = std::time::UNIX_EPOCH + std::time::Duration::from_secs(4_102_444_800 + (tick * 48_271) % 100_003);
           if let Ok(f) = std::fs::File::options().write(true).open(&p) { let _ = f.set_modified(t); }
         }
         None => { let _ = std::fs::remove_file(&p); }
@@ -754,6 +755,25 @@ impl<'a> Runner<'a> {
     for (i, ev) in slice.iter().enumerate() {
       match ev {
         Ev::BuStart => { in_bu_phase = true; }
+        Ev::BuScheduled => {
+          // Every recorded read / write dependency on a reported resource must have been checked by now.
+          if let SessionKind::BottomUp { report, .. } = kind {
+            let checked: BTreeSet<u64> = slice[..i].iter().filter_map(|e| if let Ev::RCheck { serial, .. } = e { Some(*serial) } else { None }).collect();
+            'outer: for r in report.iter() {
+              let key = prog.resources[*r];
+              for t in 0..ntasks {
+                let Some(rec) = self.ledger[t].as_ref() else { continue; };
+                if !rec.completed { continue; }
+                for d in rec.deps.iter() {
+                  if d.target == Target::Res(key) && !d.serials.iter().any(|s| checked.contains(s)) {
+                    v(&["C03", "C08", "C09"], "bu-reported-dependency-not-checked", format!("resource {:?} was reported to the bottom-up build but the {:?} dependency of task {t} on it was not checked", key, d.kind));
+                    break 'outer;
+                  }
+                }
+              }
+            }
+          }
+        }
         Ev::BuEnd => {
           in_bu_phase = false;
           order_candidates.clear();
@@ -1032,7 +1052,7 @@ impl<'a> Runner<'a> {
             }
           }
         }
-        Ev::Trk(_) | Ev::SessionStart(_) | Ev::BuScheduled => {}
+        Ev::Trk(_) | Ev::SessionStart(_) => {}
       }
     }
 
@@ -1073,7 +1093,11 @@ impl<'a> Runner<'a> {
         if let Some(w) = writers.first() {
           for x in (0..ntasks).filter(|x| x != w && fresh(x) && self.ledger[*x].as_ref().map(|e| e.deps.iter().any(|d| d.kind == DepKind::Read && d.target == Target::Res(*r))).unwrap_or(false)) {
             if !ledger_path(&self.ledger, &none_old, x, *w) {
-              violations.push(Violation::new(&["C05"], "reader-without-path-after-build", step, format!("after the build returned, task {x}, which was executed or validated in it, is a recorded reader of {:?} without (transitively) requiring its writer {w}", r)));
+              // A reader that was only validated (its own dependencies are consistent) while a task on its former
+              // path to the writer was re-executed and no longer requires the writer: pie does not notice that
+              // (recorded finding). A reader that executed in this session has no such excuse.
+              let sig = if !executed.contains(&x) && !executed.contains(w) && executed.iter().any(|m| self.prev[*m].as_ref().map(|e| !e.req_issued.is_empty()).unwrap_or(false)) { "path-dropped-by-reexecuted-intermediate" } else { "" };
+              violations.push(Violation::new(&["C05"], "reader-without-path-after-build", step, format!("after the build returned, task {x}, which was executed or validated in it, is a recorded reader of {:?} without (transitively) requiring its writer {w}", r)).with_sig(sig));
               break;
             }
           }
